@@ -282,7 +282,7 @@ def fn_term(prog, mod, name, depth=0):
         exts.append((h, f"{EXTMOD}/{h}"))
     exts.sort()
     # interactions, reproducing IntroVisitor's store_names bookkeeping for by-name pseudo calls
-    seen = {f["name"], "_salt"}
+    seen = {"_salt"}     # (the function's own name is not pre-seeded since fix 2a32f0d)
     steps = []
     for i, st in enumerate(f["stmts"]):
         k = st["k"]
